@@ -25,7 +25,8 @@ RULE = ("Hypothesis draws small run configurations (K in 2..4, NW<=12, both fron
         "with the independent enumeration of C11; (d) the same call in processes with PYTHONHASHSEED 1 and 2. Non-trivial = "
         "the logged completion order differs from submission order in some round, or the history is non-empty, or >= 2 "
         "workers; the number of distinct completion permutations realised is reported. Distinct by SHA-1 of the case."
-        ' Separately: NW = 240 runs (matrices large enough for a threaded BLAS to change kernels) with 1 vs 2/3/4/8 workers must agree bit for bit.')
+        ' Separately: NW = 240 runs (matrices large enough for a threaded BLAS to change kernels) with 1 vs 2/3/4/8 workers must agree bit for bit.'
+        ' A 4700-row run is repeated from equal RNG states.')
 ASSUMPTIONS = ["the harness chooses delays, not the OS schedule; with K<=4 tasks all K! completion orders are reachable and those realised are counted",
                "bitwise comparison only between executions in the same environment (same machine, libraries, thread settings)"]
 
